@@ -8,7 +8,7 @@ import copy
 from ..cfg import build_cfg, calls_in, node_calls
 from ..core import Ctx, property_info, rule, share
 from ..model import AnalysisError, ClassInfo, FuncInfo, anon_text, walk_no_nested
-from ..q import Dispatch, alternatives, control_deps, flow_conditions, flows, forms, call_name_of, guarded_subscripts, names_from_calls, return_values, A, MUTATORS, asrc, is_self_attr, kwarg, root_name, stores, unparse
+from ..q import Dispatch, alternatives, control_deps, leaves_at, raw_forms, truthy_guard, flow_conditions, flows, forms, call_name_of, guarded_subscripts, names_from_calls, return_values, A, MUTATORS, asrc, is_self_attr, kwarg, root_name, stores, unparse
 
 SER = "xsdata.formats.dataclass.serializers"
 PAR = "xsdata.formats.dataclass.parsers"
@@ -267,7 +267,7 @@ def handler_sibling_agreement(ctx: Ctx) -> None:
     from_parent = any(v is not None and any(isinstance(x, ast.Call) and ((isinstance(x.func, ast.Attribute) and x.func.attr == "copy" and root_name(x.func.value) in parent_names)
                                                                              or (isinstance(x.func, ast.Name) and x.func.id == "dict" and x.args and root_name(x.args[0]) in parent_names)) for x in ast.walk(v))
                       for n in fresh for v in defs[n])
-    own_in = any((isinstance(m, ast.Call) and m.func.attr == "update" and m.args and unparse(m.args[0]) == "ns_map") for m, _ in muts) or any(
+    own_in = any((isinstance(m, ast.Call) and m.func.attr == "update" and m.args and root_name(m.args[0]) == "ns_map") for m, _ in muts) or any(
         isinstance(n, ast.For) and "ns_map" in unparse(n.iter) and any(isinstance(x, ast.Subscript) and isinstance(x.ctx, ast.Store) and root_name(x) in fresh for x in ast.walk(n)) for n in walk_no_nested(mp.node))
     rv = [v for r in g.returns() for v in alternatives(mp.node, r.ast.value)]
     ret_ok = bool(rv) and all((isinstance(v, ast.Name) and (v.id in fresh or v.id in parent_names)) or _is_fresh(v) or unparse(v) == "self.queue[-1].ns_map" for v in rv)
@@ -351,24 +351,24 @@ def source_kind_dispatch(ctx: Ctx) -> None:
         for t in tree_types:
             ctx.ob(f"{fi.cls.name}.parse recognises {t} sources", f"{t}" in src and "isinstance(source" in src, at=fi, construct=f"source kind {t}", msg="pre-parsed sources are fed to the streaming parser")
         g = build_cfg(fi.node)
-        xi = [t for t in g.nodes if t.kind == "test" and unparse(t.ast) == "self.parser.config.process_xinclude"]
+        xi = [t for t in g.nodes if t.kind == "test" and "self.parser.config.process_xinclude" in raw_forms(fi, t, t.ast)]
         inc = [n for n in g.stmts() if any(unparse(c.func) in ("xinclude.include", "tree.xinclude") or unparse(c.func).endswith(".xinclude") for c in node_calls(n))]
-        ok = len(xi) == 1 and bool(inc) and all(g.only_if(i.id, xi[0].id, True) for i in inc)
+        ok = len(xi) >= 1 and bool(inc) and all(any(g.only_if(i.id, t.id, True) for t in xi) for i in inc)
         ctx.ob(f"{fi.cls.name}.parse processes XInclude exactly when config.process_xinclude", ok, at=fi, construct="xinclude dispatch", msg="XInclude processing not governed by the option")
         stream = [n for n in g.stmts() if any(unparse(c.func) == "etree.iterparse" for c in node_calls(n))]
-        ok = bool(stream) and bool(xi) and all(g.only_if(s.id, xi[0].id, False) for s in stream)
+        ok = bool(stream) and bool(xi) and all(any(g.only_if(s.id, t.id, False) for t in xi) for s in stream)
         ctx.ob(f"{fi.cls.name}.parse streams otherwise", ok, at=fi, construct="stream dispatch", msg="streaming branch changed")
         rv = return_values(fi.node)
         ctx.ob(f"{fi.cls.name}.parse hands every source kind to process_context(ctx, ns_map)", bool(rv) and all(isinstance(v, ast.Call) and unparse(v.func) == "self.process_context" and len(v.args) == 2 and unparse(v.args[1]) == "ns_map" for v in rv),
                at=fi, construct="single pump", msg="a source kind bypasses the shared event pump")
     nat = ctx.repo.func(f"{PAR}.handlers.native:XmlEventHandler.parse")
     nc_ = calls_in(nat.node)
-    ok = any(call_name_of(c) == "get_base_url" and c.args and unparse(c.args[0]) == "self.parser.config.base_url" for c in nc_) and any(unparse(c.func) == "xinclude.include" and kwarg(c, "loader") is not None for c in nc_) \
+    ok = any(call_name_of(c) == "get_base_url" and c.args and "self.parser.config.base_url" in raw_forms(nat, c, c.args[0]) for c in nc_) and any(unparse(c.func) == "xinclude.include" and kwarg(c, "loader") is not None for c in nc_) \
         and any(isinstance(x, ast.Name) and x.id == "xinclude_loader" for x in walk_no_nested(nat.node)) and any(k.arg == "base_url" for c in nc_ for k in c.keywords)
     ctx.ob("native xinclude resolves hrefs against base_url / the source path", ok, at=nat,
            construct="native base url", msg="relative XInclude hrefs resolved differently from lxml")
     lx = ctx.repo.func(f"{PAR}.handlers.lxml:LxmlEventHandler.parse")
-    ctx.ob("lxml xinclude parses with base_url=config.base_url", any(unparse(c.func) == "etree.parse" and unparse(kwarg(c, "base_url") or ast.Constant(0)) == "self.parser.config.base_url" for c in calls_in(lx.node)), at=lx,
+    ctx.ob("lxml xinclude parses with base_url=config.base_url", any(unparse(c.func) == "etree.parse" and "self.parser.config.base_url" in raw_forms(lx, c, kwarg(c, "base_url")) for c in calls_in(lx.node)), at=lx,
            construct="lxml base url", msg="base_url not honoured")
 
 
@@ -384,10 +384,10 @@ def one_event_generator(ctx: Ctx) -> None:
         ctx.ob(f"{ci.name} overrides no event-generator method", not over, at=ci.methods.get("render") or eg.methods["generate"], construct=f"{ci.name} overrides", msg=f"overrides {over}")
     xs = ctx.repo.func(f"{SER}.xml:XmlSerializer.write")
     ts = ctx.repo.func(f"{SER}.tree:TreeSerializer.render")
-    kx = [unparse(kwarg(c, "ns_map")) for c in calls_in(xs.node) if kwarg(c, "ns_map") is not None]
-    kt = [unparse(kwarg(c, "ns_map")) for c in calls_in(ts.node) if kwarg(c, "ns_map") is not None]
-    ctx.ob("both serializers prepare the user prefix map with the same expression", kx == kt and len(kx) == 1, at=xs, construct="ns_map preparation", msg=f"{kx} vs {kt}")
-    ctx.ob("both serializers feed self.generate(obj) to the writer", "self.generate(obj)" in unparse(xs.node) and "self.generate(obj)" in unparse(ts.node), at=xs, construct="generate(obj)", msg="a serializer builds events differently")
+    kx = [sorted({unparse(x) for x in leaves_at(xs, c, kwarg(c, "ns_map"))}) for c in calls_in(xs.node) if kwarg(c, "ns_map") is not None]
+    kt = [sorted({unparse(x) for x in leaves_at(ts, c, kwarg(c, "ns_map"))}) for c in calls_in(ts.node) if kwarg(c, "ns_map") is not None]
+    ctx.ob("both serializers prepare the user prefix map the same way (same set of possible values)", kx == kt and len(kx) == 1, at=xs, construct="ns_map preparation", msg=f"{kx} vs {kt}")
+    ctx.ob("both serializers feed self.generate(obj) to the writer", all(any(unparse(c) == "self.generate(obj)" for c in calls_in(f_.node)) for f_ in (xs, ts)), at=xs, construct="generate(obj)", msg="a serializer builds events differently")
     ctx.ob("both serializers pass self.config to the backend", all(unparse(kwarg(c, "config") or ast.Constant(0)) == "self.config" for fi in (xs, ts) for c in calls_in(fi.node) if kwarg(c, "config") is not None), at=ts, construct="config passed",
            msg="backend built with another config")
 
@@ -506,7 +506,7 @@ def prefixes_resolved_never_matched(ctx: Ctx) -> None:
     rv = [v for v in return_values(xt.node) if not (isinstance(v, ast.Constant) and v.value is None)]
     parts = names_from_calls(xt.node, ("resolve",))
     ok = bool(res_calls) and all(len(c.args) == 2 and unparse(c.args[1]) == "ns_map" for c in res_calls) and bool(rv) and all(
-        isinstance(v, ast.Call) and call_name_of(v) == "build_qname" and all(isinstance(a, ast.Name) and a.id in parts for a in v.args) and len(v.args) == 2 for v in rv)
+        isinstance(v, ast.Call) and call_name_of(v) == "build_qname" and all(root_name(a) in parts or any(isinstance(x, ast.Call) and call_name_of(x) == "resolve" for x in ast.walk(a)) for a in v.args) and len(v.args) == 2 for v in rv)
     ctx.ob("ParserUtils.xsi_type resolves the lexical xsi:type through QNameConverter.resolve(value, ns_map) and returns the qualified name", ok, at=xt,
            construct="xsi:type resolution", msg="xsi:type compared as a lexical (prefix-dependent) string")
     pa = ctx.repo.func(f"{PAR}.utils:ParserUtils.parse_any_attribute")
@@ -589,13 +589,11 @@ def tail_normalisation(ctx: Ctx) -> None:
             if isinstance(c.func, ast.Attribute) and c.func.attr == "append" and unparse(c.func.value) == "objects" and c.args and isinstance(c.args[0], ast.Tuple) \
                     and len(c.args[0].elts) == 2 and isinstance(c.args[0].elts[0], ast.Constant) and c.args[0].elts[0].value is None:
                 n += 1
-                g = g or build_cfg(fi.node)
-                name = unparse(c.args[0].elts[1])
-                node = g.node_of(c)
-                norm = [g.node_of(st) for st, tgt, v in stores(fi.node) if unparse(tgt) == name and v is not None and unparse(v) == f"ParserUtils.normalize_content({name})"]
-                tests = [t for t in g.nodes if t.kind == "test" and unparse(t.ast) == name]
-                ok = bool(norm) and node is not None and g.must_pass(g.entry, node.id, [x.id for x in norm if x]) and any(g.only_if(node.id, t.id, True) for t in tests)
-                ctx.ob(f"{fi.qual.split(':')[1]}: (None, {name}) appended only after normalize_content and only if non-empty", ok, at=fi, node=c,
+                val = c.args[0].elts[1]
+                leaves = leaves_at(fi, c, val)
+                normed = bool(leaves) and all(isinstance(x, ast.Call) and call_name_of(x) == "normalize_content" for x in leaves)
+                ok = normed and truthy_guard(fi, c, val)
+                ctx.ob(f"{fi.qual.split(':')[1]}: (None, <tail>) appended only after normalize_content and only if non-empty", ok, at=fi, node=c, construct="tail append normalised",
                        msg="whitespace-only tails between child elements would be bound as text (indentation changes the object)")
     ctx.floor("tail appends", n, 4)
     nc = ctx.repo.func(f"{PAR}.utils:ParserUtils.normalize_content")
